@@ -127,6 +127,7 @@ func (s *TieredCompactionStrategy) selectL0Compaction() (*CompactionTask, error)
 		TargetLevel:        1,
 		OutputPathTemplate: filepath.Join(s.sstableDir, "%d_%06d_%020d.sst"),
 	}
+	task.DropTombstones = s.coversDeeperLevels(task)
 
 	return task, nil
 }
@@ -152,6 +153,7 @@ func (s *TieredCompactionStrategy) selectPromotionCompaction(level int) (*Compac
 		TargetLevel:        level + 1,
 		OutputPathTemplate: filepath.Join(s.sstableDir, "%d_%06d_%020d.sst"),
 	}
+	task.DropTombstones = s.coversDeeperLevels(task)
 
 	return task, nil
 }
@@ -185,6 +187,7 @@ func (s *TieredCompactionStrategy) selectOverlappingCompaction(level int) (*Comp
 		TargetLevel:        level + 1,
 		OutputPathTemplate: filepath.Join(s.sstableDir, "%d_%06d_%020d.sst"),
 	}
+	task.DropTombstones = s.coversDeeperLevels(task)
 
 	return task, nil
 }
@@ -239,6 +242,7 @@ func (s *TieredCompactionStrategy) CompactRange(minKey, maxKey []byte) error {
 
 	// Set target level to the maximum level + 1
 	task.TargetLevel = maxLevel + 1
+	task.DropTombstones = s.coversDeeperLevels(task)
 
 	// Perform the compaction
 	_, err := s.executor.CompactFiles(task)
